@@ -67,6 +67,9 @@ LONGS = [
     num(1.7976931348623157e308), num(2.2250738585072014e-308), num(2.225073858507201e-308), num(1e-320), num(-5e-324),
     num(0.1 + 0.2), num(1e15), num(1e16), num(123456789.125), num(1e22), num(1e23), num(0.3), num(100.0), num(1e-5), num(1e-7),
 ]
+# pairs of distinct numbers that are one unit in the last place (or one subnormal step) apart: equal to no tolerance
+NEAR = [(0.1 + 0.2, 0.3), (1.0, 1.0 - 2.0 ** -53), (1.0, 1.0 + 2.0 ** -52), (0.0, 5e-324), (0.0, 1e-17), (1e-17, 2e-17), (-0.0, -5e-324),
+        (2.0 ** 53, 2.0 ** 53 + 2), (1e16, 1e16 + 2), (0.1 * 3, 0.3), (1.1 + 2.2, 3.3), (100.0, 100.0 - 2.0 ** -46), (1e-300, 1.0000000000000002e-300)]
 PARTNERS = [U, NUL, T, F, num(0.0), num(1.0), num(-2.5), s(""), s("a"), s("1"), arr(), arr([num(1.0)])]
 
 
